@@ -93,6 +93,14 @@ CHECKS = {
         "outside": "more than one injected request (one suffices for a first divergence by the unwinding argument of DESIGN section 4/C06); interleavings finer than one ABCI call (the application mutex serialises them); symbolic governance parameters",
         "assumptions": A_COMMON + A_STORE + ["A-SIG", "A-HASH", "A-EVM (BeginBlock/Commit of the EVM controller only)"],
     },
+    "C19": {
+        "quick": [
+            {"name": NODE + "ZZ_C19_Q1", "reach": ["Q1 end"], "bound": "history of 3 committed blocks (genesis; transfer of a symbolic amount; delegation of symbolic power + reward issuance), block 4 in flight with a delivered transfer and a pending CheckTx; queries account x2, delegatee x2, stakes, stakes/total_power, reward, gov_params at height 0 (latest), 1, 2, 3 and 4 (future), repeated for the past height after block 4 is committed"},
+        ],
+        "bounds": "heights 0..h+1 with h = 3; one in-flight block; one pending mempool check",
+        "outside": "the proposal query (the handlers share the ImmutableLedgerAt path); stakes/voting_power (reads current parameters, not in the statement); vm_call; 'serving queries never alters what is committed' is decided by the C06 twin (Query injection)",
+        "assumptions": A_COMMON + A_STORE + ["A-SIG", "A-HASH", "A-GOV", "query answers are compared after decoding them with the same JSON codec"],
+    },
     "C09": {
         "quick": [
             {"name": NODE + "ZZ_C09_P1small", "reach": ["P1 end"], "bound": "one hostile transaction (garbage bytes | empty | TrxProto with type 0..9, sender in {known, unknown, 19 bytes}, receiver in {known, 21 bytes, zero}, payload in {absent, garbage, boundary-valued message}, symbolic amount/gas/nonce/time/price, signature in {garbage, genuine}) to DeliverTx or CheckTx; then a well-formed transfer, EndBlock, Commit", "validate": 6},
